@@ -25,6 +25,10 @@ type Case struct {
 	Ver     string `json:"version"` // "1.7": page tree nodes go to object streams; "1.4": written directly
 	MaxOpen int    `json:"max_open"`
 	Ops     []Op   `json:"ops"`
+	// multipage family (see multipage.go): a history of document.MultiPage
+	// operations; MaxOpen then bounds the pages open at the same time
+	Entry string `json:"entry,omitempty"`
+	MP    []MOp  `json:"mp,omitempty"`
 }
 
 type failure struct {
@@ -485,6 +489,8 @@ func rectName(rd *cachedReader, o pdf.Object) string {
 		return "Letter"
 	case rectCrop:
 		return "c"
+	case rectA5:
+		return "A5"
 	}
 	return "other"
 }
@@ -524,6 +530,9 @@ func resKind(rd *cachedReader, o pdf.Object) string {
 func checkAttrs(o *outcome, rd *cachedReader, via string, idx int, p *mPage, eff func(pdf.Name) pdf.Object) {
 	a := attrOf(p.attr)
 	wantMB := []string{"absent", "A4", "Letter"}[a.MB]
+	if p.mb != "" {
+		wantMB = p.mb
+	}
 	if got := rectName(rd, eff("MediaBox")); got != wantMB {
 		o.fail(fmt.Sprintf("attr:%s:MediaBox:given=%s,effective=%s", via, wantMB, got),
 			"page %d (%c, %v): effective MediaBox is %s", idx, p.api, a, got)
